@@ -1,6 +1,7 @@
 import GqlProofs.SchemaConsistent
 import GqlProofs.SchemaTotal
 import GqlProofs.SchemaAppend
+import GqlProofs.SchemaOrder
 /-! # C11 — Schema construction never yields an inconsistent type system
 
 Property theorems only. `M` = `newSchema` / `appendType` (lean/GqlModel/SchemaBuild.lean: `graphql.NewSchema`,
@@ -56,6 +57,13 @@ theorem append_eq_upfront (cfg : Config) (xs ys : List TRef) (hperm : ys.Perm xs
   have hsame := append_same_types (fun x => hperm.mem_iff) h1 h0 h2
   exact ⟨lookup_same g1 g2 hsame, fun a p ha => possibleTypes_same g1 g2 hsame ha p,
     fun a o ha => isPossible_same g1 g2 hsame ha o⟩
+
+/-- acceptance does not depend on the order either: supplying `xs` in `SchemaConfig.Types` succeeds iff building the
+schema without them and appending them in the order `ys` (any permutation) succeeds. Together with
+`append_eq_upfront`: "appending types afterwards gives the same schema as supplying them up front". -/
+theorem append_ok_iff_upfront (cfg : Config) (xs ys : List TRef) (hperm : ys.Perm xs) :
+    (∃ s1, newSchema cfg xs = .ok s1) ↔ (∃ s0 s2, newSchema cfg = .ok s0 ∧ appendAll cfg s0 ys = .ok s2) :=
+  append_ok_iff (fun _ => hperm.mem_iff)
 
 /-- **T1 `subtype_reflexive_transitive`**: `isTypeSubTypeOf` is a preorder on type references, whatever
 `IsPossibleType` answers (it is only consulted for an object below an abstract type). -/
